@@ -453,6 +453,56 @@ def build(run):
         return proved("exec+oracle(all registered types)", vcs=n, sample=f"singledispatch process: {n} types")
     run.add("dispatch/dagtraverser", dagt_dispatch, kind="proof")
 
+    # ---- contract of DAGTraverser.postorder_only_children(indices): the handler receives the processed operands
+    # [self(o.ufl_operands[i]) for i in indices], in the order (and multiplicity) that `indices` gives -- for every index list
+    def only_children():
+        from functools import singledispatchmethod
+        n = 0
+        for arity in (1, 2, 3):
+            for ln in range(0, 4):
+                for idx in itertools.product(range(-arity, arity), repeat=ln):
+                    idx = list(idx)
+
+                    class D(DAGTraverser):
+                        @singledispatchmethod
+                        def process(self, o):
+                            return super().process(o)
+
+                        @process.register(Anchor)
+                        def _(self, o):
+                            return ("t", o._name)
+
+                        @process.register(Operator)
+                        @DAGTraverser.postorder
+                        def _(self, o, *ops):
+                            return ("op", type(o).__name__, tuple(ops))
+
+                        @process.register(CLS[arity])
+                        @DAGTraverser.postorder_only_children(idx)
+                        def _(self, o, *ops):
+                            return ("sel", tuple(ops))
+                    # operands are DAGs sharing a sub-DAG, built from the other node classes (so only the root has the special handler)
+                    if arity == 1:
+                        shared = N2(Anchor("p"), Anchor("q"))
+                        kids = [N3(shared, Anchor("r"), shared)]
+                    elif arity == 2:
+                        shared = N3(Anchor("p"), Anchor("q"), Anchor("r"))
+                        kids = [N1(shared), shared]
+                    else:
+                        shared = N2(Anchor("p"), Anchor("q"))
+                        kids = [shared, Anchor("r"), N1(shared)]
+                    got = D()(CLS[arity](*kids))
+                    want = ("sel", tuple(rec_apply(kids[i]) for i in idx))
+                    n += 1
+                    if got != want:
+                        return violated(f"postorder_only_children({idx}) on a node with {arity} operands passed {got[1] if len(got) > 1 else got} to the handler; "
+                                        f"the processed operands in the order of indices are {want[1]}",
+                                        replay={"indices": idx, "arity": arity, "got": repr(got), "want": repr(want)}, reproduced=True, backend="exec")
+        return proved("exec+recursive-oracle", vcs=n, sample=f"{n} (arity, index list) pairs: every index list of length <= 3 over [-arity, arity), incl. "
+                      "descending, repeated and negative entries")
+    run.function(DAGTraverser.postorder_only_children)
+    run.add("dagtraverser/postorder_only_children(all index lists)", only_children, kind="values")
+
     # ---- bounded: all DAGs up to N nodes
     N = 6 if thorough else 5
 
